@@ -53,6 +53,10 @@ type ScriptConn struct {
 	waiting int // Reads currently blocked with nothing to return
 	Created time.Time
 
+	// lastChunk, when non-nil, is handed out after inq by the Read that also returns inErr
+	// (a net.Conn may return n > 0 together with an error); set by FeedWithErr only
+	lastChunk []byte
+
 	writes   [][]byte
 	WriteErr error // if set, Writes fail with it
 	MaxRead  int   // if > 0, cap on bytes returned per Read
@@ -98,6 +102,21 @@ func (c *ScriptConn) Read(b []byte) (int, error) {
 				c.inq = c.inq[1:]
 			}
 			return n, nil
+		}
+		if c.lastChunk != nil {
+			// FeedWithErr: the final chunk is returned TOGETHER with the error by one Read
+			// (if the caller's buffer is too small, the part that fits comes first, alone)
+			lim := len(b)
+			if c.MaxRead > 0 && lim > c.MaxRead {
+				lim = c.MaxRead
+			}
+			n := copy(b[:lim], c.lastChunk)
+			if n < len(c.lastChunk) {
+				c.lastChunk = c.lastChunk[n:]
+				return n, nil
+			}
+			c.lastChunk = nil
+			return n, c.inErr
 		}
 		if c.inErr != nil {
 			return 0, c.inErr
@@ -216,6 +235,19 @@ func (c *ScriptConn) FeedErr(err error) {
 	c.mu.Unlock()
 }
 
+// FeedWithErr queues a final chunk that ONE Read returns together with err (n > 0 and a
+// non-nil error from the same call, which io.Reader permits: e.g. the last segment plus io.EOF).
+// Later Reads return (0, err). An empty chunk is FeedErr(err).
+func (c *ScriptConn) FeedWithErr(chunk []byte, err error) {
+	c.mu.Lock()
+	if len(chunk) > 0 {
+		c.lastChunk = append([]byte(nil), chunk...)
+	}
+	c.inErr = err
+	c.cond.Broadcast()
+	c.mu.Unlock()
+}
+
 // FeedEOF is FeedErr(io.EOF).
 func (c *ScriptConn) FeedEOF() { c.FeedErr(io.EOF) }
 
@@ -296,13 +328,26 @@ func (c *ScriptConn) Wait(op *Op) (finished bool) {
 }
 
 func (c *ScriptConn) WaitT(op *Op, limit time.Duration) (finished bool, stuck bool) {
-	timer := time.AfterFunc(limit, func() {
-		c.mu.Lock()
-		c.cond.Broadcast()
-		c.mu.Unlock()
-	})
-	defer timer.Stop()
+	// The deadline is fixed first and a ticker keeps nudging the waiter, so that the wake-up
+	// that ends the wait cannot be lost (a single timer created before the deadline was
+	// computed could fire a moment too early and leave the waiter asleep for ever).
 	deadline := time.Now().Add(limit)
+	stop := make(chan struct{})
+	defer close(stop)
+	go func() {
+		t := time.NewTicker(50 * time.Millisecond)
+		defer t.Stop()
+		for {
+			select {
+			case <-stop:
+				return
+			case <-t.C:
+				c.mu.Lock()
+				c.cond.Broadcast()
+				c.mu.Unlock()
+			}
+		}
+	}()
 	c.mu.Lock()
 	defer c.mu.Unlock()
 	for {
